@@ -284,7 +284,10 @@ def decode_variant(shuffled, with_check):
     ghost = {
         "before_loop1": "dgp = []\nddp = []\nvtxd = [vertex_index]",
         "loop1_begin": "v0 = vertex_index\n" + LIVE_SPLIT,
-        "loop1_end": "dgp.append(deg(accessor, v0))\n"
+        "loop1_end": "if deg(accessor, v0) > 1:\n"
+                     "    assert first(saved_values)[len(saved_values) - 1] == deg(accessor, v0), 'radix-read'\n"
+                     "    assert second(saved_values)[len(saved_values) - 1] == digit_of_arc(accessor, shuffles, v0, code(nucleotide)), 'digit-read'\n"
+                     "dgp.append(deg(accessor, v0))\n"
                      "ddp.append(ite(deg(accessor, v0) > 1, digit_of_arc(accessor, shuffles, v0, code(nucleotide)), 0))\n"
                      "vtxd.append(vertex_index)\n"
                      "assert dec_step(accessor, shuffles, dgp, ddp, vtxd, dna_sequence, _i), 'this-step'",
